@@ -29,4 +29,20 @@ HexDecodeClass(bs) ==
   IN  IF pre /\ t[2] = 88 THEN [c |-> "open", v |-> <<>>]                      \* "0X": an open spelling
       ELSE IF ~AllHex(body) \/ Len(body) % 2 = 1 THEN [c |-> "reject", v |-> <<>>]
       ELSE [c |-> "accept", v |-> HexPairs(body)]
+
+\* ---- run-length inputs -------------------------------------------------------------------------
+\* rl = [pre, pat, rep, tail]: the text  pre \o pat \o ... \o pat (rep times) \o tail  (all ASCII), too long to be a TLC
+\* sequence (tens of megabytes).  Whitespace removal and the hexadecimal test are element-wise and the digit count is
+\* additive, so the class of the text follows from its pieces.  Only REFUSAL is decided (an acceptable text is "open":
+\* its decoding is not computed).  MC_HexCodec checks the agreement with HexDecodeClass on expanded small instances.
+RlExpand(rl) == rl.pre \o Concat([i \in 1..rl.rep |-> rl.pat]) \o rl.tail
+HexDecodeClassRL(rl) ==
+  LET ascii(b) == \A i \in 1..Len(b) : b[i] < 128
+      strip(b) == SelectSeq(b, LAMBDA ch : ch \notin AsciiWs)
+      sp == strip(rl.pre)  pt == strip(rl.pat)  tl == strip(rl.tail)
+      pre  == Len(sp) >= 2 /\ sp[1] = 48 /\ sp[2] \in {120, 88}
+      body0 == IF pre THEN SubSeq(sp, 3, Len(sp)) ELSE sp
+  IN  IF ~(ascii(rl.pre) /\ ascii(rl.pat) /\ ascii(rl.tail)) \/ Len(sp) < 2 \/ rl.rep < 1 \/ (pre /\ sp[2] = 88) THEN [c |-> "open"]
+      ELSE IF ~(AllHex(body0) /\ AllHex(pt) /\ AllHex(tl)) \/ (Len(body0) + rl.rep * Len(pt) + Len(tl)) % 2 = 1 THEN [c |-> "reject"]
+      ELSE [c |-> "open"]
 =============================================================================
